@@ -38,6 +38,9 @@ structure State where
   vars : List Var := []
   aliases : List (List Char × List Char) := []
   traps : List (String × List Char) := []     -- condition name ↦ action (`[]` = ignore)
+  /-- `GrandState::parent_state`: command actions the parent shell had when this subshell was entered
+      (what `trap` shows in a subshell until a trap is modified there) -/
+  parentCmds : List (String × List Char) := []
   umask : Nat := 0
   fns : List (List Char × Bool) := []          -- function name ↦ read-only
   opts : List (List Char × Bool) := []         -- options set explicitly (`set ±o name`), newest last
@@ -73,7 +76,21 @@ def State.setAlias (s : State) (name value : List Char) : State :=
 /-- `trap -- action COND` (`-` resets to the default action) -/
 def State.setTrap (s : State) (cond : String) (action : List Char) : State :=
   let rest := s.traps.filter (·.1 ≠ cond)
-  { s with traps := if action = ['-'] then rest else rest ++ [(cond, action)] }
+  -- every `set_action` first clears all remembered parent states
+  { s with traps := if action = ['-'] then rest else rest ++ [(cond, action)], parentCmds := [] }
+
+/-- `TrapSet::enter_subshell` (yash-env/src/trap/state.rs `GrandState::enter_subshell`), for EVERY
+    condition — signals and EXIT alike: a command action is remembered in `parent_state` and reset to the
+    default; an ignored condition stays ignored. -/
+def State.enterSubshell (s : State) : State :=
+  { s with parentCmds := s.traps.filter (fun t => !t.2.isEmpty),
+           traps := s.traps.filter (fun t => t.2.isEmpty) }
+
+/-- `TrapSet::peek_state`: the remembered parent state if there is one, else the current state -/
+def State.trapShown (s : State) (cond : String) : Option (String × List Char) :=
+  match s.parentCmds.find? (·.1 = cond) with
+  | some t => some t
+  | none => s.traps.find? (·.1 = cond)
 
 /-! ### printers -/
 
@@ -152,7 +169,7 @@ def condOrder : List String := ["EXIT", "HUP", "INT", "QUIT", "TERM", "USR1", "U
 def printTrap (t : String × List Char) : List Char :=
   "trap -- ".toList ++ quote t.2 ++ [' '] ++ t.1.toList ++ ['\n']
 def listTrap (s : State) : List Char :=
-  (condOrder.filterMap fun c => (s.traps.find? (·.1 = c)).map printTrap).flatten
+  (condOrder.filterMap fun c => (s.trapShown c).map printTrap).flatten
 
 def octal3 (n : Nat) : List Char :=
   [Char.ofNat (48 + n / 64 % 8), Char.ofNat (48 + n / 8 % 8), Char.ofNat (48 + n % 8)]
@@ -445,6 +462,7 @@ def stateVerdict (s : State) : String :=
   else if !((s.vars.filter (·.readonly)).all (varEntryOk "readonly" (fun _ => []) true)) then "FAIL:R:entry-does-not-reread"
   else if !((s.vars.filter (isName ·.name)).all setEntryOk) then "FAIL:S:entry-does-not-reread"
   else if !(s.traps.all trapEntryOk) then "FAIL:T:entry-does-not-reread"
+  else if listTrap s.enterSubshell != listTrap s then "FAIL:Ts:subshell-listing-differs-from-the-parent's"
   else if !((s.fns.filter (·.2)).all fun f => fnEntryOk f.1) then "FAIL:F:attribute-line-does-not-reread"
   else if !(Generated.OptionTable.options.all fun o => optEntryOk o.1 o.2.1 (s.optOn o.1 o.2.2)) then
     "FAIL:O:entry-does-not-reread"
@@ -462,7 +480,7 @@ def listTypesetOperands (s : State) : List Char :=
 /-- `trap -p COND…` (`Command::Print`): every operand, the default action as `-` -/
 def listTrapP (s : State) : List Char :=
   (condOrder.reverse.map fun c =>
-    printTrap (c, ((s.traps.find? (·.1 = c)).map (·.2)).getD ['-'])).flatten
+    printTrap (c, ((s.trapShown c).map (·.2)).getD ['-'])).flatten
 
 /-- `set -o` (`PrintOptionsHumanReadable`): `{option:16} {state}` -/
 def listSetOHuman (s : State) : List Char :=
@@ -510,6 +528,6 @@ def runL (ops : List String) : String :=
   | none => "bad-case\t-"
   | some s =>
     let e (l : List Char) := encChars l
-    s!"A={e (listAlias s)} V={e (listTypeset s)} X={e (listExport s)} R={e (listReadonly s)} S={e (listSet s)} T={e (listTrap s)} U={e (listUmask s)} O={e (listSetO s)} Ao={e (listAliasOperands s)} Vo={e (listTypesetOperands s)} Tc={e (listTrapP s)} Oh={e (listSetOHuman s)} Us={e (listUmaskS s)} Fa={e (listFnAttr s)}\t{stateVerdict s}"
+    s!"A={e (listAlias s)} V={e (listTypeset s)} X={e (listExport s)} R={e (listReadonly s)} S={e (listSet s)} T={e (listTrap s)} U={e (listUmask s)} O={e (listSetO s)} Ao={e (listAliasOperands s)} Vo={e (listTypesetOperands s)} Tc={e (listTrapP s)} Oh={e (listSetOHuman s)} Us={e (listUmaskS s)} Ts={e (listTrap s.enterSubshell)} Tk={e (listTrap s.enterSubshell)} Tq={e (listTrap s.enterSubshell)} As={e (listAlias s)} Vs={e (listTypeset s)} Os={e (listSetO s)} Fa={e (listFnAttr s)}\t{stateVerdict s}"
 
 end YashModel.Quote.Listing
